@@ -227,7 +227,11 @@ CHECKS["C13"] = dict(
           "(Model/PostIntE.lean: element field, stored D, recovered E, energy / area / volume contribution, same operation "
           "order) and every area / volume / energy integral femmcli prints is compared with the model fed the solution-file "
           "mesh (4e-15), with theorems that the energy integrand is the element's field energy density (non-negative) and the "
-          "element field minus the gradient of an affine potential. Decided on the real tools for all three physics, planar and "
+          "element field minus the gradient of an affine potential; for heat flow likewise (Model/PostIntH.lean: conductivity pair "
+          "GetK incl. the k(T) table, element mean, stored flux density, recovered gradient, averages of temperature / gradient / "
+          "flux divided by the selected volume with the complex division of the C++; area, volume and the three averages compared "
+          "at 4e-15; theorems: flux = conductivity x gradient per component, recovered gradient = gradient, average x volume = "
+          "volume integral). Decided on the real tools for all three physics, planar and "
           "axisymmetric: additivity over random subsets and orders (1e-15), block area / volume vs the drawn regions and "
           "revolved volumes (1e-15), contour length vs drawn length, electrostatic energy vs half sum V*q (1e-12), "
           "magnetostatic energy vs half int A.J and coenergy."),
